@@ -25,6 +25,7 @@ RULE = ('Line sequences from a row grammar: valid 3/4-column snapshot rows (from
 ASSUMPTIONS = ['e > t', 'fields contain no delimiter, comment marker or whitespace', 'rows with more than 4 columns in snapshot '
                'files are not generated (the statement does not say how they are read)',
                'keys=True is exercised on plain utf-8 files given by path (read_ids re-opens path.name as text)']
+TECHNIQUE = 'grammar-based PBT (noisy vs clean rows), exhaustive compaction sweep, coverage-guided fuzzing (atheris) with a semantic oracle in the thorough tier'
 BUDGET = {'quick': {'cases': 8000, 'seconds': 45}, 'thorough': {'cases': 120000, 'seconds': 540}}
 KINDS = ['add', 'add', 'add', 'add', 'add', 'add_from', 'path']
 SHRINK_KEYS = ['noise', 'ops', 'log']
